@@ -32,7 +32,7 @@
 
 const char *target_name = "race";
 
-enum { L_CROSS_POST, L_RAW_CROSS_POST, L_POOL, L_CONTINUATION, L_SIGNAL_DELIVERY, L_CHILD_REAPED, L_LOOP_CHURN, L_TWO_LOOPS_CONCURRENT, L_M0, L_M1, L_M2, L_M3, L_PIPE_TRANSPORT, L_IVTHREAD, L_SAME_EVENT_TWO_POSTERS, L_CONCURRENT_FIRST_EVENT, L_INOTIFY_PER_LOOP };
+enum { L_CROSS_POST, L_RAW_CROSS_POST, L_POOL, L_CONTINUATION, L_SIGNAL_DELIVERY, L_CHILD_REAPED, L_LOOP_CHURN, L_TWO_LOOPS_CONCURRENT, L_M0, L_M1, L_M2, L_M3, L_PIPE_TRANSPORT, L_IVTHREAD, L_SAME_EVENT_TWO_POSTERS, L_CONCURRENT_FIRST_EVENT, L_INOTIFY_PER_LOOP, L_SIGNAL_INTEREST_CHURN };
 
 static void fatal_handler(const char *msg)
 {
@@ -48,7 +48,10 @@ static atomic_int main_ready, posters_done, stop_all, nposters, loops_done, nloo
 static atomic_long n_cross_posts, n_raw_posts, n_items_done, n_sig, n_reaped, n_churn, n_cont;
 static struct iv_work_pool pool; static int have_pool;
 static void pool_thread_start(void *c) { (void)c; struct timespec ts = { 0, 200000 }; nanosleep(&ts, NULL); }
-static void pool_thread_stop(void *c) { (void)c; struct timespec ts = { 0, 2000000 }; nanosleep(&ts, NULL); }
+static atomic_int stop_seq;
+/* the hooks of different workers take different times (6, 3, 0 ms, in the order they are entered): an earlier worker is still inside
+ * its hook when a later one has long left */
+static void pool_thread_stop(void *c) { (void)c; int k = 2 - atomic_fetch_add(&stop_seq, 1) % 3; struct timespec ts = { 0, 3000000 * k }; if (k) nanosleep(&ts, NULL); }
 #define NIT 16
 static struct iv_work_item items[NIT], conts[NIT]; static int nitems;
 static struct iv_signal sigint; static int have_sig;
@@ -147,6 +150,8 @@ static void lino_start(struct lino *l, int id, int round)
 	iv_timer_register(&l->guard);
 }
 
+static int cfg_sig_churn;
+static void sig_handler_noop(void *c) { (void)c; }
 /* an independent loop in its own thread: init -> short program -> deinit, repeated */
 static void loop_ev_handler(void *c) { int *cnt = c; (*cnt)++; }
 static void loop_timer_cb(void *c) { struct iv_event *e = c; iv_event_unregister(e); }
@@ -160,6 +165,15 @@ static void *loop_main(void *arg)
 		iv_event_register(&e);
 		iv_event_post(&e);
 		if (cfg_main_events && atomic_load(&main_ready) && !atomic_load(&stop_all) && round % 2 == 0) { iv_event_post(&main_ev[id % NEV]); atomic_fetch_add(&n_cross_posts, 1); }
+		if (cfg_sig_churn) {
+			/* interests for one signal number come and go in several threads at once, restricted to the thread in some, process-wide in
+			 * others (the signal itself is never sent): the shared per-signal bookkeeping and the handler installation are common to all */
+			struct iv_signal ls;
+			for (int q = 0; q < 2; q++) {
+				IV_SIGNAL_INIT(&ls); ls.signum = SIGRTMIN + 5; ls.flags = ((id + q) & 1) ? IV_SIGNAL_FLAG_THIS_THREAD : 0; ls.cookie = NULL; ls.handler = sig_handler_noop;
+				if (iv_signal_register(&ls) == 0) { if (q) sched_yield(); iv_signal_unregister(&ls); }
+			}
+		}
 		IV_TIMER_INIT(&t); iv_validate_now(); t.expires = iv_now; t.expires.tv_nsec += 300000 * (1 + id); if (t.expires.tv_nsec >= 1000000000) { t.expires.tv_sec++; t.expires.tv_nsec -= 1000000000; }
 		t.cookie = &e; t.handler = loop_timer_cb;
 		iv_timer_register(&t);
@@ -169,6 +183,8 @@ static void *loop_main(void *arg)
 			IV_WAIT_INTEREST_INIT(&lw); lw.cookie = NULL; lw.handler = wait_handler_ignore;
 			if (iv_wait_interest_register_spawn(&lw, child_fn_pause, NULL) == 0) {
 				iv_wait_interest_kill(&lw, SIGKILL);
+				/* ... and asked about a few more times around the moment the (possibly other) reaping thread collects it */
+				for (int q = 0; q < 4; q++) { struct timespec ts = { 0, 150000 * (1 + q) }; nanosleep(&ts, NULL); iv_wait_interest_kill(&lw, 0); }
 				if (id & 1) sched_yield();
 				iv_wait_interest_unregister(&lw);
 			}
@@ -225,6 +241,8 @@ void target_run(void)
 	/* (signals go to the receiver thread) */     /* somebody has to receive SIGCHLD / SIGUSR1 */
 	int concurrent_first = ch_n(2);     /* loops start before the main loop has registered its first event */
 	cfg_churn_ev = ch_n(2); cfg_main_events = ch_n(4) != 0; cfg_loop_children = ch_n(3) == 0;
+	cfg_sig_churn = ch_n(3) == 0;
+	if (cfg_sig_churn) { if (nl < 2) nl = 2; vz_label(L_SIGNAL_INTEREST_CHURN); }
 	cfg_ino = vz_param_l("ino", -1) >= 0 ? (int)vz_param_l("ino", 0) : ch_n(4) == 0;
 	if (cfg_ino) { if (nl < 2) nl = 2; ino_base = vz_scratch_dir(); vz_label(L_INOTIFY_PER_LOOP); }
 	if (!cfg_main_events) { np = 0; cfg_churn_ev = 0; have_pool = 0; nitems = 0; nwi = 0; if (nl < 2) nl = 2; }     /* variant: only the loop threads hold events, so the process-wide kick descriptor comes and goes */
@@ -281,7 +299,7 @@ void target_run(void)
 size_t target_gen(uint64_t seed, uint64_t index, uint8_t *buf, size_t cap)
 {
 	struct vz_rng r; rng_seed(&r, seed, index);
-	size_t n = 16;
+	size_t n = 64;      /* target_run draws about 25 choices; none of them may fall off the end of the string (that reads as 0) */
 	for (size_t i = 0; i < n && i < cap; i++) buf[i] = (uint8_t)rng_next(&r);
 	return n;
 }
